@@ -23,7 +23,12 @@ type scanResult struct {
 // pbfScan runs one scan of r with procs decoders; cfg may set skip flags / filters; each
 // delivered object is passed to onObj (may be nil) right after Scan returned it.
 func pbfScan(r io.Reader, procs int, askHeader bool, cfg func(*osmpbf.Scanner), onObj func(i int, o osm.Object, s *osmpbf.Scanner)) scanResult {
-	s := osmpbf.New(context.Background(), r, procs)
+	return pbfScanCtx(context.Background(), r, procs, askHeader, cfg, onObj)
+}
+
+// pbfScanCtx is pbfScan with the caller's context (nil is documented as "background").
+func pbfScanCtx(ctx context.Context, r io.Reader, procs int, askHeader bool, cfg func(*osmpbf.Scanner), onObj func(i int, o osm.Object, s *osmpbf.Scanner)) scanResult {
+	s := osmpbf.New(ctx, r, procs)
 	if cfg != nil {
 		cfg(s)
 	}
